@@ -150,7 +150,31 @@ func CmdCheck(args []string) int {
 		timeout = 60
 	}
 	var units []*Unit
+	// "pkg.F[*]": every instantiation of the generic function F that exists in the current tree (which ones exist
+	// depends on the callers, so they are not listed by hand: a caller that starts to use F at a new type gets
+	// that instantiation verified, and one that disappears is nothing to alarm about); the generic function
+	// itself must still exist.
+	var claimFuncs []string
 	for _, key := range claim.Functions {
+		if !strings.HasSuffix(key, "[*]") {
+			claimFuncs = append(claimFuncs, key)
+			continue
+		}
+		base := strings.TrimSuffix(key, "[*]")
+		if e.FuncByKey[ModulePath+"/"+base] == nil {
+			claimFuncs = append(claimFuncs, base)
+			continue
+		}
+		var inst []string
+		for k, f := range e.FuncByKey {
+			if strings.HasPrefix(k, ModulePath+"/"+base+"[") && !IsGenericShell(f) {
+				inst = append(inst, strings.TrimPrefix(k, ModulePath+"/"))
+			}
+		}
+		sort.Strings(inst)
+		claimFuncs = append(claimFuncs, inst...)
+	}
+	for _, key := range claimFuncs {
 		fn := e.FuncByKey[ModulePath+"/"+key]
 		if fn == nil || missingSet[key] || e.Contracts[fn] == nil {
 			failures = append(failures, failure{name: key + "#structure#1", status: "missing", desc: "function under contract not found in the current tree (renamed, removed, or its contract is unresolvable)"})
